@@ -1,5 +1,6 @@
 import Driver.Proto
 import Driver.C20
+import Driver.C06
 import Driver.C07
 import Driver.C16
 import Driver.C17
@@ -15,6 +16,7 @@ def dispatch (line : String) : String :=
     let kv := parseKV rest
     match prop with
     | "C20" => Driver.C20.handle kv
+    | "C06" => Driver.C06.handle kv
     | "C07" | "C08" => Driver.C07.handle prop kv
     | "C16" => Driver.C16.handle kv
     | "C17" => Driver.C17.handle kv
